@@ -210,6 +210,20 @@ func contractMentions(c *FuncContract, id string) bool {
 	return false
 }
 
+// suffixMentions: the unit generates obligations that an `obligation-property` directive attributes to id
+// (currently: units with function literals verified at their creation site).
+func suffixMentions(L *Loaded, c *FuncContract, id string) bool {
+	if len(c.closureSpecs) == 0 {
+		return false
+	}
+	for suffix, ps := range L.contracts.suffixProps {
+		if strings.HasPrefix(suffix, ".captures-") && hasProp(ps, id) {
+			return true
+		}
+	}
+	return false
+}
+
 // jobsFor collects the units that carry obligations of a property ("" = all).
 func jobsFor(L *Loaded, id string, opt runOpts) ([]unitJob, []*UnitResult) {
 	L.extractTables() // computed once, before the units run in parallel
@@ -219,7 +233,7 @@ func jobsFor(L *Loaded, id string, opt runOpts) ([]unitJob, []*UnitResult) {
 		if c.kind != "func" || c.trusted || c.opts["impl-only"] == "true" {
 			continue
 		}
-		if id != "" && !contractMentions(c, id) {
+		if id != "" && !contractMentions(c, id) && !suffixMentions(L, c, id) {
 			continue
 		}
 		fns := L.funcsFor(c)
